@@ -11,10 +11,12 @@ import (
 	"fmt"
 	"hash/fnv"
 	"os"
+	"runtime"
 	"runtime/debug"
 	"sort"
 	"strings"
 	"sync"
+	"sync/atomic"
 
 	"github.com/bytemare/secp256k1/zz_verif/gen"
 )
@@ -38,6 +40,9 @@ type Prop struct {
 	Require func(tier string) map[string]int64
 	// Parent, when set, replaces the standard fan-out (C16, C17).
 	Parent func(p *Prop, pc *ParentCtx) *Aggregate
+	// ColdStart, when set, runs first in every shard process, before anything else has used the library in that process
+	// (first-use races on lazily initialised package state only exist there). It reports through c like a case.
+	ColdStart func(c *Ctx)
 	// NoNoise disables the API-noise bursts between cases.
 	NoNoise bool
 	// Finish, when set, runs in each shard after Generate (e.g. to flush per-shard coverage bitmaps).
@@ -361,7 +366,7 @@ func (c *Ctx) RunConcurrent(what, key string, reps int, jobs []func() string) bo
 	}
 
 	out := make([]res, len(jobs))
-	start := make(chan struct{})
+	line := StartLine(len(jobs))
 
 	var wg sync.WaitGroup
 
@@ -375,7 +380,7 @@ func (c *Ctx) RunConcurrent(what, key string, reps int, jobs []func() string) bo
 					out[i].pan = r
 				}
 			}()
-			<-start
+			line()
 
 			for rep := 0; rep < reps; rep++ {
 				if m := j(); m != "" {
@@ -386,7 +391,6 @@ func (c *Ctx) RunConcurrent(what, key string, reps int, jobs []func() string) bo
 		}(i, j)
 	}
 
-	close(start)
 	wg.Wait()
 
 	c.Res.Counters["concurrent-batches"]++
@@ -411,4 +415,24 @@ func (c *Ctx) RunConcurrent(what, key string, reps int, jobs []func() string) bo
 	}
 
 	return true
+}
+
+// StartLine returns a function that n goroutines call to leave together: a spinning barrier. A channel close readies the
+// waiters one after the other and they reach the processors over tens of microseconds; after a spin barrier all of them
+// are already running when the last one arrives, so that their next instruction — typically the first use of some
+// library function — happens within about a hundred nanoseconds of each other.
+func StartLine(n int) func() {
+	var arrived int32
+
+	spin := n <= runtime.GOMAXPROCS(0)
+
+	return func() {
+		atomic.AddInt32(&arrived, 1)
+
+		for atomic.LoadInt32(&arrived) < int32(n) {
+			if !spin {
+				runtime.Gosched()
+			}
+		}
+	}
 }
